@@ -8,6 +8,7 @@ import (
 func registerExtra(p *Program) {
 	registerRegexp(p)
 	registerCodec(p)
+	registerHash(p)
 	registerProtoCodec(p)
 	I := p.intrinsics
 	storeData := func(m *Machine, ctxv Value, name string) *StoreData {
